@@ -6,6 +6,7 @@ import (
 	"fmt"
 	"math"
 	"math/rand/v2"
+	"reflect"
 	"strconv"
 	"strings"
 	"time"
@@ -131,7 +132,7 @@ func c15Scalar(r *rand.Rand) *jnode {
 			n.kind = jkRawNull
 		} else {
 			n.kind = jkRawNumber
-			n.s = []string{"0", "-0", "12345678901234567890123", "1.5e300", "-3.25", "1E-9", "true", "null", "\"raw\""}[r.IntN(9)]
+			n.s = []string{"0", "-0", "12345678901234567890123", "1.5e300", "-3.25", "1E-9", "true", "null", "\"raw\"", "0e0", "0E5", "-0e-2", "0e+7", "0.0e0", "-0.0", "1e400", "[1, 2]", "{\"a\": null}", "false"}[r.IntN(19)]
 		}
 	}
 	return n
@@ -280,8 +281,8 @@ func c15Match(n *jnode, got any, path string) string {
 		d := json.NewDecoder(strings.NewReader(n.s))
 		d.UseNumber()
 		d.Decode(&want)
-		if fmt.Sprint(want) != fmt.Sprint(got) {
-			return fmt.Sprintf("%s: Raw(%s) parsed as %v", path, n.s, got)
+		if !reflect.DeepEqual(want, got) {
+			return fmt.Sprintf("%s: Raw(%s) parsed as %#v, the text itself parses as %#v", path, n.s, got, want)
 		}
 	case jkObject:
 		m, ok := got.(map[string]any)
